@@ -89,6 +89,25 @@ theorem isect_common_time (A F : List (Ev D)) (dA : NonOverlap A) (dF : NonOverl
     refine ⟨_, isect_complete A F dA dF hA hF mA mF e f he hf (by omega), ?_, ?_⟩ <;>
       simp only <;> omega
 
+/-- the total duration of the result is the measure of the common time, literally: the number of
+    microsecond cells of any window containing the events that lie in an event and in a filter
+    event -/
+theorem isect_total_duration_measure (A F : List (Ev D)) (dA : NonOverlap A) (dF : NonOverlap F)
+    (hA : Nonneg A) (hF : Nonneg F) (mA : MsAligned A) (mF : MsAligned F)
+    (lo : Int) (n : Nat) (hw : ∀ e ∈ A, lo ≤ e.ts ∧ e.ts + e.dur ≤ lo + n) :
+    durSum (isect A F) =
+      cells (fun t => (∃ e ∈ A, e.ts ≤ t ∧ t < e.ts + e.dur) ∧
+                      (∃ f ∈ F, f.ts ≤ t ∧ t < f.ts + f.dur)) lo n := by
+  rw [← cells_eq_durSum (isect A F)
+    (fun p hp => by obtain ⟨_, _, _, _, h⟩ := isect_sound A F hA hF mA mF p hp; exact h.2.2.2.2)
+    (isect_no_double A F dA dF hA hF mA mF) lo n]
+  · exact cells_congr _ _ (fun t => isect_common_time A F dA dF hA hF mA mF t) lo n
+  · intro p hp
+    obtain ⟨e, he, f, hf, -, -, h3, h4, h5⟩ := isect_sound A F hA hF mA mF p hp
+    have := hw e he
+    have := hF f hf
+    omega
+
 /-- `period_union` never raises: `Timeslot.union` is only reached where `gap` returned `None` -/
 theorem union_never_raises (empty : D) (L₁ L₂ : List (Ev D)) :
     ∃ out, periodUnion empty L₁ L₂ = .ok out :=
@@ -119,6 +138,28 @@ theorem union_dataless (empty : D) (L₁ L₂ out : List (Ev D))
   split at ho
   · simp at ho
   · obtain ⟨x, _, rfl⟩ := List.mem_map.1 ho; rfl
+
+/-- the total duration of the result is the measure of the covered time: the number of microsecond
+    cells of any window containing the inputs that lie in some input event -/
+theorem union_total_duration (empty : D) (L₁ L₂ out : List (Ev D)) (hn : Nonneg (L₁ ++ L₂))
+    (ha : MsAligned (L₁ ++ L₂)) (h : periodUnion empty L₁ L₂ = .ok out)
+    (lo : Int) (n : Nat) (hw : ∀ e ∈ L₁ ++ L₂, lo ≤ e.ts ∧ e.ts + e.dur ≤ lo + n) :
+    durSum out = cells (fun t => ∃ e ∈ L₁ ++ L₂, e.ts ≤ t ∧ t < e.ts + e.dur) lo n := by
+  have hg := union_sorted_gapped empty L₁ L₂ out hn ha h
+  have hc := union_cover empty L₁ L₂ out hn ha h
+  rw [periodUnion_eq] at h; cases h
+  have hpw : (unionOut empty L₁ L₂).Pairwise (fun p q => 0 < q.dur → p.ts + p.dur ≤ q.ts) :=
+    List.Pairwise.imp (R := fun (p q : Ev D) => p.ts + p.dur < q.ts)
+      (S := fun (p q : Ev D) => 0 < q.dur → p.ts + p.dur ≤ q.ts) (fun hpq _ => Int.le_of_lt hpq) hg.1
+  rw [← cells_eq_durSum (unionOut empty L₁ L₂) hg.2 hpw lo n]
+  · exact cells_congr _ _ (fun t => unionOut_inside empty L₁ L₂ hn ha t) lo n
+  · intro o ho
+    have hd := hg.2 o ho
+    obtain ⟨e1, he1, h1⟩ := (hc o.ts).1 ⟨o, ho, by omega, by omega⟩
+    obtain ⟨e2, he2, h2⟩ := (hc (o.ts + o.dur)).1 ⟨o, ho, by omega, by omega⟩
+    have := hw e1 he1
+    have := hw e2 he2
+    omega
 
 /-! Non-vacuity: concrete inputs satisfying the hypotheses, given out of order, with zero-length
 events on a shared start and on a shared end, touching events and one filter event spanning two events. -/
